@@ -4,6 +4,7 @@ From SCC Require Import Base.Sexp Model.RunBase Model.RunPM Model.RunX86.
 From SCC Require Import Base.Sexp Model.RunBase Model.RunPM Model.RunStages.
 From SCC Require Import Model.RunFun2Core.
 From SCC Require Import Model.RunRT.
+From SCC Require Import Model.RunHeapOps.
 Open Scope string_scope.
 
 Definition dispatch (cmd : string) (input : string) : string :=
@@ -15,5 +16,6 @@ Definition dispatch (cmd : string) (input : string) : string :=
   | "stages" => run_stages input
   | "fun2core" => run_fun2core input
   | "rt" => run_rt input
+  | "heapops-x86" => run_heapops_x86 input
   | _ => "BAD - unknown command " ++ cmd ++ nl
   end.
